@@ -125,7 +125,7 @@ package internal
 //   VarsOK: the variables of a scope are distinct, existing objects.
 //@ define VarsOK(m *template.MethodScope) bool = (forall a int :: 0 <= a && a < len(m.vars) ==> m.vars[a] != nil && allocated(m.vars[a])) && (forall a, b int :: 0 <= a && a < b && b < len(m.vars) ==> m.vars[a] != m.vars[b])
 //@ func (*TemplateGenerator).methodData props=C02,C13,C14
-//@   requires g.registry != nil && allocated(g.registry) && RegInv(g.registry) && method != nil && ifaceConfig != nil
+//@   requires g.registry != nil && allocated(g.registry) && RegInv(g.registry) && method != nil
 //@   site#param AddVar@0: $1 == sigOf(method).Params().At(j) && $2 == "" && $3 == repl(ifaceConfig, keyPath($1.Type()), keyName($1.Type()))
 //@   site#result AddVar@1: $1 == sigOf(method).Results().At(j) && $2 == "" && $3 == repl(ifaceConfig, keyPath($1.Type()), keyName($1.Type()))
 //@   site#samescope AddVar: $recv == methodScope
@@ -193,7 +193,7 @@ package internal
 //@ func (*TemplateGenerator).Generate props=C12,C10,C02,C09,C14
 //@   safety fs-frame
 //@   requires g.registry != nil && allocated(g.registry) && RegInv(g.registry) && g.remoteTemplateCache != nil && CacheInv(g.remoteTemplateCache)
-//@   requires forall k int :: 0 <= k && k < len(interfaces) ==> interfaces[k] != nil && interfaces[k].Config != nil
+//@   requires forall k int :: 0 <= k && k < len(interfaces) ==> interfaces[k] != nil
 //@   site#validated format: schema != nil ==> (validTD(schema, data.TemplateData) && (forall k int :: 0 <= k && k < len(data.Interfaces) ==> validTD(schema, data.Interfaces[k].TemplateData)))
 //@   site#schemaneeded format: (!isRemote(g.templateName) || g.requireSchemaExists) ==> schema != nil
 //@   site#order format: called("getTemplate") == 1 && called("text/template.(*Template).Execute") == 1 && lastErr("text/template.(*Template).Execute") == nil
